@@ -11,8 +11,12 @@ Ltac Zify.zify_post_hook ::= Z.to_euclidean_division_equations.
 Lemma initial_shared_empty : initial_shared = [].
 Proof. reflexivity. Qed.
 
+(* tie T: the current source copies the dictionary it is given (Generated/GenBoot.boot_copies_overrides) *)
+Lemma boot_step_is_fixed : boot_step = boot_fixed_step.
+Proof. reflexivity. Qed.
+
 Lemma boot_step_state st c : fst (boot_step st c) = st.
-Proof. unfold boot_step. destruct (boot_core _ _ _ _ _ _) as [[dest ds] r]. reflexivity. Qed.
+Proof. rewrite boot_step_is_fixed. unfold boot_fixed_step. destruct (boot_core _ _ _ _ _ _) as [[dest ds] r]. reflexivity. Qed.
 
 Lemma run_boot_state : forall cs st, fst (run boot_step st cs) = st.
 Proof.
@@ -30,7 +34,7 @@ Lemma boot_shared_never_changes cs : fst (run boot_step initial_shared cs) = ini
 Proof. apply run_boot_state. Qed.
 
 Lemma boot_keeps_callers_dict st c : o_caller_dict (snd (boot_step st c)) = c_overrides c.
-Proof. unfold boot_step. destruct (boot_core _ _ _ _ _ _) as [[dest ds] r]. reflexivity. Qed.
+Proof. rewrite boot_step_is_fixed. unfold boot_fixed_step. destruct (boot_core _ _ _ _ _ _) as [[dest ds] r]. reflexivity. Qed.
 
 (* ------------------------------------------------------------------ this call's options *)
 Definition call_options (c : call) : dict :=
@@ -41,7 +45,7 @@ Lemma boot_alone_core c :
   let '(dest, ds, r) := boot_core (c_host c) (port_of c) (c_image c) (c_sv c) (call_options c) (c_clock c) in
   mkout dest ds r (c_overrides c).
 Proof.
-  unfold boot_alone, boot_step, call_options. rewrite initial_shared_empty.
+  unfold boot_alone. rewrite boot_step_is_fixed. unfold boot_fixed_step, call_options. rewrite initial_shared_empty.
   destruct (boot_core _ _ _ _ _ _) as [[dest ds] r]. reflexivity.
 Qed.
 
